@@ -31,6 +31,8 @@ strv = z3.Function("strv", V, z3.StringSort())      # content of str values
 slen = z3.Function("slen", V, z3.IntSort())         # len() of str/bytes/other sized values
 isgenfunc = z3.Function("isgenfunc", V, z3.BoolSort())
 
+mem_eq = z3.Function("mem_eq", SeqV, V, z3.BoolSort())   # `x in list`: some element is x or == x
+
 FINITE, NAN, PINF, NINF = 0, 1, 2, 3
 
 TYPES = ["NoneType", "bool", "int", "float", "Fraction", "Decimal", "str", "bytes", "tuple",
